@@ -432,6 +432,9 @@ func TestVerifC10Outbound(t *testing.T) {
 		if err != nil || json.Unmarshal(b, &rf) != nil || rf.Part != "outbound" {
 			return
 		}
+		if s, _ := vrep.Shard(); s != 0 {
+			return
+		}
 		replay = &rf.Replay
 	}
 	forms := c10Forms()
